@@ -262,4 +262,20 @@ def run_straightline(stmts, env, enums=None, stop_at=None):
             u = unwrap(s)
             if isinstance(u, dict) and u.get("k") == "Throw":
                 return ("throw", s)
+            # plain stores `x = e;` update the environment (an unevaluable right-hand side forgets the old value)
+            lhs = rhs = None
+            if isinstance(u, dict) and u.get("k") == "Bin" and u.get("op", "").endswith("=") and u["op"] not in ("==", "!=", "<=", ">="):
+                lhs, rhs = u["lhs"], (u["rhs"] if u["op"] == "=" else None)
+            elif isinstance(u, dict) and u.get("k") == "Un" and u.get("op") in ("pre++", "post++", "pre--", "post--"):
+                lhs = u["e"]
+            if lhs is not None:
+                lp = ir.path(lhs)
+                if lp is not None:
+                    key = ir.path_str(lp)
+                    try:
+                        if rhs is None:
+                            raise Unknown("compound")
+                        env[key] = ev(unwrap(rhs), env, enums)
+                    except Unknown:
+                        env.pop(key, None)
     return ("end", None)
